@@ -513,6 +513,14 @@ func (w *kqueue) readEvents() {
 				continue
 			}
 
+			// The watch may have been removed while handling an earlier event
+			// of this batch (for example its directory was renamed): there is
+			// no path to report this one for, and treating the empty path as
+			// "." would start watching the current directory.
+			if !ok {
+				continue
+			}
+
 			event := w.newEvent(path.name, path.linkName, mask)
 
 			if event.Has(Rename) || event.Has(Remove) {
